@@ -1,5 +1,6 @@
 import SwcVerif.Props.C09
 import SwcVerif.Props.C09Gen
+import SwcVerif.Props.C09Helpers
 #print axioms C09.mkTree_wf
 #print axioms C09.step_wf
 #print axioms C09.run_wf
@@ -26,3 +27,9 @@ import SwcVerif.Props.C09Gen
 #print axioms C09.generated_copy
 #print axioms C09.generated_branch_segments
 #print axioms C09.generated_tree_segments
+#print axioms C09.generated_get_node
+#print axioms C09.generated_path_iter
+#print axioms C09.generated_iter_live
+#print axioms C09.generated_branch_detach
+#print axioms C09.generated_branch_detach_agrees
+#print axioms C09.generated_compartment_detach
